@@ -24,207 +24,8 @@ use truc::record::{
     },
     type_resolver::{DynamicTypeInfo, TypeInfo, TypeResolver},
 };
+use vharness::synth::*;
 use vharness::{arg_value, coq_list, coq_nlist, Rng};
-
-// ------------------------------------------------------------------ synthetic resolver
-
-/// Marker type: the synthetic resolver answers size `S`, alignment `A` for it, while the host's
-/// own `size_of` is 0 and `align_of` is 1.
-#[derive(Clone, Copy)]
-pub struct Ty<const S: usize, const A: usize>;
-
-pub struct SynthResolver;
-
-fn parse_shape(name: &str) -> (usize, usize, bool) {
-    // "S<size>A<align>[U]"
-    let u = name.ends_with('U');
-    let core = name.trim_end_matches('U');
-    let core = core.strip_prefix('S').unwrap_or_else(|| panic!("bad type name {}", name));
-    let mut it = core.split('A');
-    let s = it.next().unwrap().parse().unwrap();
-    let a = it.next().unwrap().parse().unwrap();
-    (s, a, u)
-}
-
-impl TypeResolver for SynthResolver {
-    fn type_info<T>(&self) -> TypeInfo {
-        let n = std::any::type_name::<T>();
-        if let Some(p) = n.find("Ty<") {
-            let inner = &n[p + 3..n.len() - 1];
-            let mut it = inner.split(',').map(|x| x.trim().parse::<usize>().unwrap());
-            let s = it.next().unwrap();
-            let a = it.next().unwrap();
-            TypeInfo {
-                name: format!("S{}A{}", s, a),
-                size: s,
-                align: a,
-            }
-        } else {
-            // used only as the base of add_datum_override::<(), _>: deliberately absurd answers,
-            // every field is overridden
-            TypeInfo {
-                name: "BASE".to_owned(),
-                size: 7777,
-                align: 3,
-            }
-        }
-    }
-
-    fn dynamic_type_info(&self, type_name: &str) -> DynamicTypeInfo {
-        let (s, a, u) = parse_shape(type_name);
-        DynamicTypeInfo {
-            info: TypeInfo {
-                name: format!("S{}A{}", s, a),
-                size: s,
-                align: a,
-            },
-            allow_uninit: u,
-        }
-    }
-}
-
-type NB<'a> = NativeRecordDefinitionBuilder<&'a SynthResolver>;
-
-/// shapes the typed entry point is compiled for
-const TYPED: [(usize, usize); 12] = [
-    (0, 1),
-    (0, 8),
-    (1, 1),
-    (3, 1),
-    (2, 2),
-    (4, 4),
-    (12, 4),
-    (8, 8),
-    (24, 8),
-    (16, 16),
-    (6, 2),
-    (5, 1),
-];
-
-fn add_typed(b: &mut NB, shape: (usize, usize), name: String, uninit: bool) -> Result<DatumId, String> {
-    macro_rules! go {
-        ($s:literal, $a:literal) => {
-            if uninit {
-                b.add_datum_allow_uninit::<Ty<$s, $a>, _>(name)
-            } else {
-                b.add_datum::<Ty<$s, $a>, _>(name)
-            }
-        };
-    }
-    match shape {
-        (0, 1) => go!(0, 1),
-        (0, 8) => go!(0, 8),
-        (1, 1) => go!(1, 1),
-        (3, 1) => go!(3, 1),
-        (2, 2) => go!(2, 2),
-        (4, 4) => go!(4, 4),
-        (12, 4) => go!(12, 4),
-        (8, 8) => go!(8, 8),
-        (24, 8) => go!(24, 8),
-        (16, 16) => go!(16, 16),
-        (6, 2) => go!(6, 2),
-        (5, 1) => go!(5, 1),
-        _ => unreachable!(),
-    }
-}
-
-/// override entry point with a typed base: only the flag is overridden, name / size / alignment are the
-/// resolver's answers for the marker type (whose host size is 0 and host alignment 1)
-fn add_partial_override(b: &mut NB, shape: (usize, usize), name: String, uninit: bool) -> Result<DatumId, String> {
-    let ov = DatumDefinitionOverride { type_name: None, size: None, align: None, allow_uninit: Some(uninit) };
-    macro_rules! go {
-        ($s:literal, $a:literal) => {
-            b.add_datum_override::<Ty<$s, $a>, _>(name, ov)
-        };
-    }
-    match shape {
-        (0, 1) => go!(0, 1),
-        (0, 8) => go!(0, 8),
-        (1, 1) => go!(1, 1),
-        (3, 1) => go!(3, 1),
-        (2, 2) => go!(2, 2),
-        (4, 4) => go!(4, 4),
-        (12, 4) => go!(12, 4),
-        (8, 8) => go!(8, 8),
-        (24, 8) => go!(24, 8),
-        (16, 16) => go!(16, 16),
-        (6, 2) => go!(6, 2),
-        (5, 1) => go!(5, 1),
-        _ => unreachable!(),
-    }
-}
-
-// ------------------------------------------------------------------ requests
-
-#[derive(Clone, Debug, PartialEq)]
-enum Req {
-    Add { name: u32, size: u64, align: u64, uninit: bool, entry: u8 },
-    Remove(u64),
-    Close(u8),
-    LookupCur(u32),
-    LookupVar(u64, u32),
-}
-
-const STRAT_NAMES: [&str; 4] = ["SSimple", "SBasic", "SAppend", "SAppendRev"];
-
-fn ty_code(size: u64, align: u64) -> u64 {
-    size * 32 + align
-}
-
-impl Req {
-    fn text(&self) -> String {
-        match self {
-            Req::Add { name, size, align, uninit, entry } => {
-                format!("A:{}:{}:{}:{}:{}", name, size, align, *uninit as u8, entry)
-            }
-            Req::Remove(i) => format!("R:{}", i),
-            Req::Close(s) => format!("C:{}", s),
-            Req::LookupCur(n) => format!("LC:{}", n),
-            Req::LookupVar(v, n) => format!("LV:{}:{}", v, n),
-        }
-    }
-    fn parse(t: &str) -> Req {
-        let p: Vec<&str> = t.split(':').collect();
-        let n = |i: usize| p[i].parse::<u64>().unwrap();
-        match p[0] {
-            "A" => Req::Add {
-                name: n(1) as u32,
-                size: n(2),
-                align: n(3),
-                uninit: n(4) != 0,
-                entry: n(5) as u8,
-            },
-            "R" => Req::Remove(n(1)),
-            "C" => Req::Close(n(1) as u8),
-            "LC" => Req::LookupCur(n(1) as u32),
-            "LV" => Req::LookupVar(n(1), n(2) as u32),
-            _ => panic!("bad request {}", t),
-        }
-    }
-    fn coq(&self) -> String {
-        match self {
-            Req::Add { name, size, align, uninit, .. } => format!(
-                "Add {}%nat {}%nat {} {} {}",
-                name,
-                ty_code(*size, *align),
-                size,
-                align,
-                if *uninit { "true" } else { "false" }
-            ),
-            Req::Remove(i) => format!("Remove {}%nat", i),
-            Req::Close(s) => format!("Close {}", STRAT_NAMES[*s as usize]),
-            Req::LookupCur(n) => format!("LookupCur {}%nat", n),
-            Req::LookupVar(v, n) => format!("LookupVar {}%nat {}%nat", v, n),
-        }
-    }
-}
-
-fn hist_text(h: &[Req]) -> String {
-    h.iter().map(|r| r.text()).collect::<Vec<_>>().join(" ")
-}
-fn hist_parse(t: &str) -> Vec<Req> {
-    t.split_whitespace().map(Req::parse).collect()
-}
 
 // ------------------------------------------------------------------ observation of the implementation
 
@@ -242,13 +43,6 @@ struct DefObs {
 struct Snap {
     defs: Vec<DefObs>,
     variants: Vec<Vec<u64>>,
-}
-
-fn did(d: DatumId) -> u64 {
-    format!("{}", d).parse().unwrap()
-}
-fn vid(v: RecordVariantId) -> u64 {
-    format!("{}", v).parse().unwrap()
 }
 
 fn obs_def(d: &DatumDefinition<NativeDatumDetails>) -> DefObs {
@@ -316,86 +110,6 @@ fn enc_snapshot(s: &Snap, out: &mut Vec<u64>) {
     out.push(s.variants.len() as u64);
     for v in &s.variants {
         enc_ids(v, out);
-    }
-}
-
-fn err_code(msg: &str) -> u64 {
-    if msg.contains("already exists in current variant") {
-        0
-    } else if msg.contains("is already removed") {
-        1
-    } else if msg.contains("in previous variant") {
-        2
-    } else if msg.contains("in variant being built") {
-        3
-    } else {
-        99
-    }
-}
-
-fn close_with(b: &mut NB, s: u8) -> RecordVariantId {
-    match s {
-        0 => b.close_record_variant_with(variant::simple),
-        1 => b.close_record_variant_with(variant::basic),
-        2 => b.close_record_variant_with(variant::append_data),
-        3 => b.close_record_variant_with(variant::append_data_reverse),
-        _ => unreachable!(),
-    }
-}
-
-fn apply(b: &mut NB, scratch_res: &SynthResolver, r: &Req) -> Vec<u64> {
-    match r {
-        Req::Add { name, size, align, uninit, entry } => {
-            let nm = format!("f{}", name);
-            let shape = (*size as usize, *align as usize);
-            let tyn = format!("S{}A{}", size, align);
-            let entry = if (*entry == 0 || *entry == 4) && !TYPED.contains(&shape) { 2 } else { *entry };
-            let res = match entry {
-                0 => add_typed(b, shape, nm, *uninit),
-                4 => add_partial_override(b, shape, nm, *uninit),
-                1 => b.add_dynamic_datum(nm, if *uninit { format!("{}U", tyn) } else { tyn }),
-                2 => b.add_datum_override::<(), _>(
-                    nm,
-                    DatumDefinitionOverride {
-                        type_name: Some(tyn),
-                        size: Some(shape.0),
-                        align: Some(shape.1),
-                        allow_uninit: Some(*uninit),
-                    },
-                ),
-                _ => {
-                    // copy_datum from a definition made elsewhere
-                    let mut sb = NativeRecordDefinitionBuilder::new(scratch_res);
-                    // a padding datum first so that the copied one has a non-trivial offset
-                    sb.add_dynamic_datum("pad", "S3A1").unwrap();
-                    let i = sb
-                        .add_dynamic_datum(nm, if *uninit { format!("{}U", tyn) } else { tyn })
-                        .unwrap();
-                    sb.close_record_variant_with(variant::append_data);
-                    let def = sb.build();
-                    b.copy_datum(&def[i])
-                }
-            };
-            match res {
-                Ok(i) => vec![0, did(i)],
-                Err(e) => vec![3, err_code(&e)],
-            }
-        }
-        Req::Remove(i) => match b.remove_datum(DatumId::from(*i as usize)) {
-            Ok(()) => vec![1],
-            Err(e) => vec![3, err_code(&e)],
-        },
-        Req::Close(s) => vec![2, vid(close_with(b, *s))],
-        Req::LookupCur(n) => match b.get_current_datum_definition_by_name(&format!("f{}", n)) {
-            None => vec![4],
-            Some(d) => vec![5, did(d.id())],
-        },
-        Req::LookupVar(v, n) => {
-            match b.get_variant_datum_definition_by_name(RecordVariantId::from(*v as usize), &format!("f{}", n)) {
-                None => vec![4],
-                Some(d) => vec![5, did(d.id())],
-            }
-        }
     }
 }
 
